@@ -82,6 +82,9 @@ pub fn configs() -> Vec<Config> {
     }
     for entry in ["stdin", "payload"] {
         out.push(Config { name: format!("sls -S all via {}", entry), argv: sv(&["-S", "all"]), entry, fmt: "sls", summary: vec!["pass", "fail", "skip"], verbose: false, print_json: false });
+        // the documented --type flag and the ordering flags never change a verdict
+        out.push(Config { name: format!("sls -S all --type CFNTemplate via {}", entry), argv: sv(&["-S", "all", "--type", "CFNTemplate"]), entry, fmt: "sls", summary: vec!["pass", "fail", "skip"], verbose: false, print_json: false });
+        out.push(Config { name: format!("structured json --type CFNTemplate -a via {}", entry), argv: sv(&["--structured", "-o", "json", "-S", "none", "-t", "CFNTemplate", "-a"]), entry, fmt: "sjson", summary: vec![], verbose: false, print_json: false });
         out.push(Config { name: format!("-o json -S none -p via {}", entry), argv: sv(&["-o", "json", "-S", "none", "-p"]), entry, fmt: "json", summary: vec![], verbose: false, print_json: true });
     }
     out
